@@ -181,9 +181,14 @@ def evaluate(chk: core.Check, cases):
                 chk.tag('chain/' + kv2['tag'])
                 ex_p, ex_r = core.parse_rats(kv2['tprod']), core.parse_rats(kv2['tres'])
                 near_tie = False
-                # a float comparison `Tprod < limit` can differ from the exact one when a sample sits within rounding of the limit
-                for x in ex_p:
-                    if lim != 0 and abs(x - lim) <= abs(lim) * Fraction(1, 10**11):
+                # a float comparison `Tprod < limit` can differ from the exact one when a sample of the *un-tiled* series sits within
+                # rounding of the limit (the tiling then starts one step earlier or later): recompute that series exactly and look
+                P, TR, TI = Fraction(R['drawdp']['value']), Fraction(trock), Fraction(r['Tinj_read'])
+                DROP = Fraction(float(r['params'].get('Production Wellbore Temperature Drop', 0)))
+                pre = [(1 - P * Fraction(t)) * (TR - TI) + TI - DROP for t in R['timevector']['value']]
+                lim_exact = (1 - Fraction(dd)) * pre[0] if pre else Fraction(0)
+                for x in pre:
+                    if abs(x - lim_exact) <= max(abs(lim_exact), 1) * Fraction(1, 10**10):
                         near_tie = True
                 okp = len(ex_p) == n and all(core.close(a, b, 1e-9, abs_tol=1e-9) for a, b in zip(tprod, ex_p))
                 okr = len(ex_r) == n and all(core.close(a, b, 1e-9, abs_tol=1e-9) for a, b in zip(tres, ex_r))
